@@ -352,7 +352,7 @@ func specRenderAll(last, mid branchFormat, roots []*Node, i int) string {
 //@   requires nn: n != nil
 //@   requires g: grown(last, mid, n)
 //@   ensures eq: specRaw(n) == specRender(last, mid, n)
-//@   trigger specRender(last, mid, n)
+//@   trigger specRaw(n), specRender(last, mid, n)
 //@   decreases down(n), 1, 0
 func lemmaRawIsRender(last, mid branchFormat, n *Node) {
 	ghostAssert(specDesc(n, n))
@@ -660,3 +660,59 @@ func specPreorderAll(roots []*Node, i int) []*Node {
 //@   invariant open: stack != nil ==> chain(stack)
 //@   invariant closed [C02]: stack == nil ==> len(roots) == 0
 //@   decreases len(rg.scanner.lines) - rg.scanner.pos
+
+// allRoots(rs): a forest as the generators produce it.
+//@ pred allRoots(rs []*Node): forall k int :: {rs[k]} 0 <= k && k < len(rs) ==> rs[k] != nil && rs[k].hierarchy == 1
+
+// treeSimple.output has two routes: the plain one (noUseIterOfSimpleOutput) is verified here; the route through the
+// three iterator closures (iter.Pull2 coroutines) is not covered by this contract (marked partial; see DESIGN.md).
+//@ func gtree.treeSimple.output
+//@   partial
+//@   requires ok: simpleTreeOK(t, cfg)
+//@   modifies Node.children, Node.parent, Node.brnch.value, Node.brnch.path, list.List.view, list.Element.backOf, counter.n, bufio.Scanner.pos, bufio.Scanner.failed, markdown.Parser.isSharpRoot, markdown.Parser.spaces, markdown.Parser.sep, out, wfail, defaultSpreaderSimple.w
+//@   use lemma lemmaRawAllIsRenderAll
+//@   ensures render [C01]: cfg.noUseIterOfSimpleOutput && cfg.encode == encodeDefault && !cfg.dryrun && result == nil && !wfail ==> (exists rs []*Node :: {witness(roots)} allRoots(rs) && out[w] == old(out[w]) ++ specRenderAll(cfg.lastNodeFormat, cfg.intermedialNodeFormat, rs, len(rs)))
+//@   ensures sticky [C14]: old(wfail) ==> wfail
+
+//@ func gtree.treeSimple.walk
+//@   param callback follows walkCallback
+//@   requires ok: simpleTreeOK(t, cfg)
+//@   requires live: !cbFailed
+//@   modifies Node.children, Node.parent, Node.brnch.value, Node.brnch.path, list.List.view, list.Element.backOf, counter.n, bufio.Scanner.pos, bufio.Scanner.failed, markdown.Parser.isSharpRoot, markdown.Parser.spaces, markdown.Parser.sep, cbTrace, cbFailed, cbLastErr
+//@   ensures all [C05]: result == nil ==> !cbFailed && (exists rs []*Node :: {witness(roots)} allRoots(rs) && cbTrace == old(cbTrace) ++ specPreorderAll(rs, len(rs)) && (cfg.encode == encodeDefault ==> (forall k int :: {rs[k]} 0 <= k && k < len(rs) ==> grown(cfg.lastNodeFormat, cfg.intermedialNodeFormat, rs[k]))))
+//@   ensures stop [C05]: cbFailed ==> result == cbLastErr && result != nil
+
+//@ lemma gtree.lemmaRawAllIsRenderAll
+//@   requires rng: 0 <= i && i <= len(roots)
+//@   requires g: forall k int :: {roots[k]} 0 <= k && k < i ==> roots[k] != nil && grown(last, mid, roots[k])
+//@   ensures eq: specRawAll(roots, i) == specRenderAll(last, mid, roots, i)
+//@   trigger specRawAll(roots, i), specRenderAll(last, mid, roots, i)
+//@   decreases i
+func lemmaRawAllIsRenderAll(last, mid branchFormat, roots []*Node, i int) {
+	if i > 0 {
+		lemmaRawAllIsRenderAll(last, mid, roots, i-1)
+		lemmaRawIsRender(last, mid, roots[i-1])
+	}
+}
+
+// ---------------------------------------------------------------------------------------------
+// tree_handler.go: From-Markdown entry points (and their deprecated aliases: same shared contracts)
+
+//@ func gtree.treePipeline.output
+//@   assumed
+//@   modifies Node.children, Node.parent, Node.brnch.value, Node.brnch.path, list.List.view, list.Element.backOf, counter.n, bufio.Scanner.pos, bufio.Scanner.failed, markdown.Parser.isSharpRoot, markdown.Parser.spaces, markdown.Parser.sep, out, wfail, defaultSpreaderSimple.w
+//@ func gtree.treePipeline.walk
+//@   assumed
+//@   modifies Node.children, Node.parent, Node.brnch.value, Node.brnch.path, list.List.view, list.Element.backOf, counter.n, bufio.Scanner.pos, bufio.Scanner.failed, markdown.Parser.isSharpRoot, markdown.Parser.spaces, markdown.Parser.sep, cbTrace, cbFailed, cbLastErr
+
+//@ contract fromMarkdownOutput
+//@   modifies Node.children, Node.parent, Node.brnch.value, Node.brnch.path, list.List.view, list.Element.backOf, counter.n, bufio.Scanner.pos, bufio.Scanner.failed, markdown.Parser.isSharpRoot, markdown.Parser.spaces, markdown.Parser.sep, out, wfail, defaultSpreaderSimple.w
+//@   ensures render [C01,C03]: exists c *config :: {c.massive} fresh(c) && (!c.massive && c.noUseIterOfSimpleOutput && c.encode == encodeDefault && !c.dryrun && result == nil && !wfail ==> (exists rs []*Node :: allRoots(rs) && out[w] == old(out[w]) ++ specRenderAll(c.lastNodeFormat, c.intermedialNodeFormat, rs, len(rs))))
+//@ applies fromMarkdownOutput to gtree.OutputFromMarkdown, gtree.Output
+
+//@ contract fromMarkdownWalk
+//@   param callback follows walkCallback
+//@   requires live: !cbFailed
+//@   modifies Node.children, Node.parent, Node.brnch.value, Node.brnch.path, list.List.view, list.Element.backOf, counter.n, bufio.Scanner.pos, bufio.Scanner.failed, markdown.Parser.isSharpRoot, markdown.Parser.spaces, markdown.Parser.sep, cbTrace, cbFailed, cbLastErr
+//@   ensures walk [C05,C03]: exists c *config :: {c.massive} fresh(c) && (!c.massive ==> (result == nil ==> !cbFailed && (exists rs []*Node :: allRoots(rs) && cbTrace == old(cbTrace) ++ specPreorderAll(rs, len(rs)))) && (cbFailed ==> result == cbLastErr && result != nil))
+//@ applies fromMarkdownWalk to gtree.WalkFromMarkdown, gtree.Walk
